@@ -58,7 +58,8 @@ def project(u, v):
 
 def orthogonalize(u, vs):
     for v in vs:
-        u = subtract(u, project(u, v))
+        if not is_zero(v):
+            u = subtract(u, project(u, v))
     return u
 
 def normalize(u):
